@@ -25,7 +25,8 @@ REQUIRED_REACH = ["_random_points_if_n_eq_1", "_random_points_inside", "_inside_
                   "UnionDomain._sample_random_with_n", "UnionDomain._sample_random_with_d",
                   "UnionDomain._sample_grid_with_n", "ProductDomain._sample_uniform_b_points",
                   "Translate._translate_points", "Rotate._rotate_grid", "Triangle._handle_sum_greater_1",
-                  "LHSSampler._append_random_points", "GaussianSampler._check_inside_domain"]
+                  "LHSSampler._append_random_points", "GaussianSampler._check_inside_domain",
+                  "TrimeshPolyhedron.sample_random_uniform", "TrimeshBoundary.sample_random_uniform", "ShapelyPolygon.sample_random_uniform"]
 MIN_NONTRIVIAL = 40
 ASSUMPTIONS = ["shapes within the conditioning regime of DESIGN.md 3.1 (features >= 0.05 L, angles >= 40 deg)",
                "tolerance 2e-5 * L (float32 library vs float64 twin), L = max(1, box diameter, max |coordinate|)",
